@@ -239,6 +239,13 @@ def run(rep, tier):
             strdecode.clause(get_facts(cfg5), rep, tier, negatives=False)
         except AnalysisBroken as ex:
             rep.broken.append(str(ex))
+    # 'every number stored with the kind and value the text denotes': parseNumber evaluated on a boundary-driven corpus
+    # against exact arithmetic (sv/numvalue.py; shared with C04)
+    from .. import numvalue
+    try:
+        numvalue.clause(get_facts('K1'), rep, tier)
+    except AnalysisBroken as ex:
+        rep.broken.append(str(ex))
     try:
         clause_dom_build(get_facts('K1'), rep, tier)
     except AnalysisBroken as ex:
